@@ -54,16 +54,22 @@ def run_timing_tolerant(c, name, n, **kw):
 
 
 def recipe(c: Check):
-    c.build(["Properties/C06.vo", "Corr/C06.vo"], harness=["c06"])
+    c.build(["Properties/C06.vo", "Corr/C06.vo"], harness=["c06"], units=["c06route"])
     c.obligations("C06")
     st = c.run_driver("router", q(c.tier, 480, 6000), shards=q(c.tier, 8, 16))
     if st:
         need(c, "router", c.cov.get("coq_counters", {}).get("router", {}),
-             ["NCONFLICT", "NREFUSED", "NEXACT", "NWILDCARD", "NCATCHALL", "NUSERSPECIFIC", "NUSERFALLBACK", "NLONGLOC"])
+             ["NCONFLICT", "NREFUSED", "NEXACT", "NWILDCARD", "NCATCHALL", "NUSERSPECIFIC", "NUSERFALLBACK", "NLONGLOC", "NDEEPWILD"])
+    # goroutines released at the same instant register the same triple on the real Routers: some
+    # sequential order of the calls must explain the answers (C06_concurrent_registrations_linearizable)
+    st = c.run_driver("add_race", q(c.tier, 400, 6000), shards=q(c.tier, 2, 8), timeout=900)
+    if st:
+        need(c, "add_race", c.cov.get("coq_counters", {}).get("add_race", {}), ["NRACEREFUSED"])
+        c.cov["add_race_rounds"] = st.get("rounds_run")
     st = run_timing_tolerant(c, "router_http", q(c.tier, 150, 1500), shards=q(c.tier, 8, 16), timeout=1500)
     if st:
         need(c, "router_http", c.cov.get("coq_counters", {}).get("router_http", {}),
-             ["NREUSED", "NNOTFOUND", "NH2C", "NSTALE", "NCONNECT"])
+             ["NREUSED", "NNOTFOUND", "NH2C", "NSTALE", "NCONNECT", "NDEEPHOST"])
     st = c.run_driver("shared_port", q(c.tier, 20, 300), shards=q(c.tier, 4, 8), timeout=900)
     if st:
         need(c, "shared_port", c.cov.get("coq_counters", {}).get("shared_port", {}), ["NSYSREFUSED", "NSYSEXACT", "NSYSWILDCARD"])
